@@ -193,9 +193,6 @@ impl Stats {
     pub fn add(&mut self, p: Pr, n: u64) {
         self.c[p as usize] += n;
     }
-    pub fn get(&self, p: Pr) -> u64 {
-        self.c[p as usize]
-    }
     /// merge `o` (a later chunk of run indices) into self; order of merging is by run index
     pub fn merge(&mut self, o: Stats) {
         for (a, b) in self.c.iter_mut().zip(o.c.iter()) {
